@@ -104,7 +104,15 @@ def main(argv):
                 # observation about gaftools (a violation of "never fails"), not a harness failure
                 tb = traceback.extract_tb(e.__traceback__)
                 inner = tb[-1].filename if tb else ""
-                if inner.startswith(util.REPO + os.sep):
+                if isinstance(e, FileNotFoundError) and e.filename and str(e.filename).startswith(casedir + os.sep) \
+                        and not inner.startswith(util.REPO + os.sep):
+                    # the harness writes its inputs itself and reads output files only after the command
+                    # reported success: a missing file is an output the command did not write
+                    res = {"sig": None, "nontrivial": False,
+                           "violations": [{"kind": "output_file_missing",
+                                           "msg": f"the command completed normally but did not write {os.path.basename(str(e.filename))}",
+                                           "witness": {"file": os.path.basename(str(e.filename)), "tb": traceback.format_exc()[-800:]}}]}
+                elif inner.startswith(util.REPO + os.sep):
                     res = {"sig": None, "nontrivial": False,
                            "violations": [{"kind": "uncaught_exception_in_code_under_test",
                                            "msg": f"{type(e).__name__}: {e} at {inner.split('/gaftools/')[-1]}:{tb[-1].lineno} ({tb[-1].name})",
@@ -129,6 +137,9 @@ def main(argv):
             ncases += 1
             ctx.drop(casedir)
         extra = P.finish(ctx) if hasattr(P, "finish") else None
+        from vf import cli as _cli
+        for tool, n in _cli.STALE.items():
+            monitor.COUNTS[f"stale_output_planted:{tool}"] += n
         emit({"type": "summary", "shard": shard, "cases": ncases, "truncated": truncated,
               "counts": dict(monitor.COUNTS), "probes": dict(monitor.PROBES.status),
               "hashseed": ctx.hashseed, "extra": extra, "wall_s": time.monotonic() - t0})
